@@ -122,8 +122,10 @@ g_check(int e, int32 pos, const uint8 *got, int32 n, const char *unused)
     int32 i;
     (void)unused;
     for (i = 0; i < n && pos + i < GMAX; i++)
-        if (Gdef[s][pos + i] == 1)
+        if (Gdef[s][pos + i] == 1) {
+            if (got[i] != Gdata[s][pos + i]) H4V_NOTE("H4V-NOTE read.data e=%d pos=%d got=%d want=%d\n", e, (int)(pos + i), got[i], Gdata[s][pos + i]);
             H4V_ASSERT(got[i] == Gdata[s][pos + i], "H.read.data: byte read differs from the byte last written there");
+        }
 }
 
 static void
